@@ -352,6 +352,31 @@ def run(ctx):
                   "value-shape", krun.loc(i), "argument is seconds(*postActionDelay_)",
                   "pause_actions argument is not the plugin's post_action_delay: " + a)
 
+    # the delay the stopping action applies is the one its configuration gives: the field is filled by the argument parser alone (it is
+    # registered with it by reference) and is never assigned - not to "normalise" a 0 into "absent", which would let the ruleset's delay
+    # apply where the action asked for none
+    regs = [(f, i) for f in P.fns.values() if f.file.startswith("oomd/plugins/") for i in f.calls("addArgumentCustom", "addArgument")
+            if any("postActionDelay_" in f.text(a) for a in f.nodes[i].get("args", []))]
+    ctx.count("plugin_delay_registrations", len(regs))
+    ctx.floor("plugin_delay_registrations", 1, "registration of postActionDelay_ with the argument parser")
+    for f, i in regs:
+        ctx.use(f)
+        a = [f.text(x) for x in f.nodes[i].get("args", [])]
+        ctx.check(len(a) >= 2 and "post_action_delay" in a[0] and plain(a[1]).endswith("postActionDelay_"), "plugin-delay-is-the-configured-one:registration",
+                  "value-shape", f.loc(i), "post_action_delay is parsed into postActionDelay_", "the registration is %s" % ", ".join(a)[:160])
+    n_w = 0
+    for f in P.fns.values():
+        if not f.file.startswith("oomd/"):
+            continue
+        for i in field_writes(f, "postActionDelay_"):
+            n_w += 1
+            ctx.use(f)
+            ctx.check(False, "plugin-delay-is-the-configured-one:%s@%d" % (short(f), f.nodes[i].get("line", 0)), "who-writes", f.loc(i),
+                      "postActionDelay_ is written by the argument parser only",
+                      "%s assigns postActionDelay_ (%s): the delay applied after this action stops is then not the post_action_delay its "
+                      "configuration gives (a configured 0 turned into 'absent' makes the ruleset's delay apply instead of none)" % (f.pq, f.text(i)[:120]))
+    ctx.ok("plugin-delay-is-the-configured-one:writers", "who-writes", "-", "%d assignments to postActionDelay_ outside the parser" % n_w)
+
     # ---- R6 detectors/preruns do not depend on the pause state
     for q in ("Oomd::Engine::Ruleset::prerun", "Oomd::Engine::DetectorGroup::check",
               "Oomd::Engine::DetectorGroup::prerun"):
